@@ -32,6 +32,10 @@ def cases(ctx):
                 dict(N1, eps=N2['eps'], delta=[[q, N2['eps'] if a == N1['eps'] else a, T] for q, a, T in N1['delta']])
             if N1['eps'] in N1['Sigma'] or N2['eps'] in N2['Sigma']:
                 continue
+        if i % 12 == 5:     # the SECOND operand's epsilon is an ordinary input symbol of the first one
+            e2 = rng.choice(['_', 'e'])
+            N1 = gen.random_nfa(rng, 4, ['a', e2], 'ε', live=True)
+            N2 = gen.random_nfa(rng, 4, ['a', 'b'], e2, prefix='p', live=True)
         if set(N1['Q']) & set(N2['Q']):
             continue
         if not thorough or ctx.mine(i):
@@ -80,8 +84,8 @@ def judge(ctx, c, answers):
     set_default_generators(c['warm'])
     res = []
     # representable? (result epsilon = N1.epsilon must not be an input symbol of N2, and N2.epsilon must not be one of N1 when re-keyed)
-    representable = same_eps or (c['N1']['eps'] not in N2.Sigma and c['N2']['eps'] not in N1.Sigma and
-                                 not any(a == c['N1']['eps'] for (_, a) in N2.delta))
+    # (theorems nfa_union_spec_eps / nfa_concat_spec_eps: only N1.epsilon must not be an input symbol of N2; nfa_*_eps_clash otherwise)
+    representable = same_eps or c['N1']['eps'] not in N2.Sigma
     for name, la, f, args, ref in (
             ('nfa_union', answers[0], NA.nfa_union, (N1, N2), lambda w: oracles.nfa_accepts(N1, w) or oracles.nfa_accepts(N2, w)),
             ('nfa_concatenation', answers[1], NA.nfa_concatenation, (N1, N2), lambda w: accepts_concat(N1, N2, w)),
@@ -93,6 +97,11 @@ def judge(ctx, c, answers):
         two = name != 'nfa_repetition'
         if two and not representable:
             ctx.count('not-representable')
+            if 'ok' in got:
+                ctx.violation(name, {'case': c, 'problems': ['the result epsilon is an input symbol of the second operand, yet an NFA was returned'],
+                                     'impl': enc.canon_nfa(got['ok'])})
+            elif 'err' not in la:
+                ctx.violation('correspondence:' + name, {'case': c, 'impl': got, 'model': la}, no_input=True)
             continue
         if 'ok' not in got:
             ctx.violation(name + '-raises', {'case': c, 'impl': got})
@@ -116,7 +125,7 @@ def judge(ctx, c, answers):
                     break
         if problems or bad is not None:
             ctx.violation(name, {'case': c, 'problems': problems, 'word': bad, 'impl': cn})
-        if same_eps or not two:
+        if True:
             if 'ok' not in la or enc.canon_nfa_spec(la['ok']) != cn:
                 ctx.violation('correspondence:' + name, {'case': c, 'impl': cn, 'model': la}, no_input=not (problems or bad))
         ctx.count(name)
